@@ -1,0 +1,26 @@
+//go:build verif
+
+package crdt
+
+// Contracts for property C39, observed-remove map: a removed key keeps no value
+// at the removing replica. (Get/Entries are gated by the key set, so a value left
+// behind is invisible locally - but ORMap.Merge merges values by key whenever both
+// sides hold one, so an orphan would be folded into a later re-creation of the key:
+// the removed entry resurrected at this replica only.)
+
+//@ property C39
+
+//@ structural writers ORMap.values: NewORMap, (*ORMap).Compact, (*ORMap).Merge, (*ORMap).cloneInternal, ORMapFromRawState
+//@ structural writers ORMap.keys: NewORMap, (*ORMap).Compact, (*ORMap).Merge, (*ORMap).Remove, (*ORMap).Set, (*ORMap).cloneInternal, ORMapFromRawState
+
+// the working copy is a different map object from the receiver's
+//@ func (*ORMap).cloneInternal(m)
+//@   requires m.values != nil && m.keys != nil
+//@   preserve ORMap.values, ORMap.keys
+//@   loop 1 invariant building-a-copy: out != nil && fresh(out) && out.values != nil && fresh(out.values) && m.values == old(m.values)
+//@   ensures a-separate-map: result != nil && fresh(result) && result.values != nil && fresh(result.values) && m.values == old(m.values)
+
+//@ func (*ORMap).Remove(m, key)
+//@   requires m.values != nil && m.keys != nil
+//@   ensures removed-key-keeps-no-value: result != m ==> result.values != nil && !has(result.values, key)
+//@   ensures receiver-keeps-its-map: m.values == old(m.values)
